@@ -147,6 +147,18 @@ func (e *Encoder) callCommon(instr ssa.Instruction, cm *ssa.CallCommon, res ssa.
 				if al, ok := v.X.(*ssa.Alloc); ok && v.Op == token.MUL {
 					dname = al.Comment
 				}
+				// a function held in a struct field (x.f(...)): named after the field
+				if fa, ok := v.X.(*ssa.FieldAddr); ok && v.Op == token.MUL {
+					if pt, ok := fa.X.Type().Underlying().(*types.Pointer); ok {
+						if stt, ok := pt.Elem().Underlying().(*types.Struct); ok {
+							dname = stt.Field(fa.Field).Name()
+						}
+					}
+				}
+			case *ssa.Field:
+				if stt, ok := v.X.Type().Underlying().(*types.Struct); ok {
+					dname = stt.Field(v.Field).Name()
+				}
 			}
 			if dname != "" {
 				dsn := e.siteName("call", dname)
